@@ -420,13 +420,15 @@ class WithOptions(Evaluatable[B]):
         """Whether the value under the key is determined by the pre-set options alone."""
         if not dotted_key_exists(key, self.options):
             return False
-        if not dotted_key_exists(key, options):
+        if self.force and not isinstance(get_dotted_key(key, self.options), Mapping):
             return True
-        # The key is present on both sides. A section is merged key by key, so
-        # the caller's section still contributes whatever the pre-set one lacks.
-        return self.force and not isinstance(
-            get_dotted_key(key, self.options), Mapping
-        )
+        # A pre-set section is merged key by key with the caller's section, and a
+        # default yields to the caller: the caller's value matters if it has one.
+        try:
+            return not dotted_key_exists(key, options)
+        except TypeError:
+            # The caller holds a non-section value at a prefix of the key
+            return True
 
     def keys(self, options: Options) -> Set[str]:
         """Return the keys required by the wrapped Evaluatable object."""
